@@ -17,7 +17,7 @@ META = dict(
                   "stub contract for jax.random.split: fresh pairwise-distinct keys derived from the parent", "list-backed fake arrays implement slicing / reshape / iteration like jnp arrays"],
     assumptions=["dataset / batch sizes are concrete and enumerated; permutations and row tags are symbolic", "both parts non-empty (precondition of the property)"],
     bounds=dict(quick="n in 2..8, batch_size in {1,2,3,n,n+2}, val_prop in {0.1,0.25,0.5,0.75,0.9}, with/without condition, 2 epochs",
-                thorough="n in 2..14, batch_size in 1..n+2, same val_props plus 0.3/0.7, 3 epochs"),
+                thorough="n in 2..12; batch_size in 1..n+2 for n <= 8, {1,2,3,n//2,n-1,n,n+2} above; val_props plus 0.3; 3 epochs for n <= 7, 2 above"),
 )
 
 
@@ -350,8 +350,8 @@ def obligations(tier, seed):
         for n in range(2, 9):
             tasks.append(dict(name=f"n{n}", func="c15:ob_config", kwargs=dict(n=n, bs_list=sorted({1, 2, 3, n, n + 2}), val_props=[0.1, 0.25, 0.5, 0.75, 0.9], epochs=2), cost=n))
     else:
-        for n in range(2, 15):
-            # every batch size up to n + 2 for n <= 9; for larger n the sizes around the divisors / remainders (1, 2, 3, 5, n // 2, n - 1, n, n + 2)
-            bss = list(range(1, n + 3)) if n <= 9 else sorted({1, 2, 3, 5, n // 2, n - 1, n, n + 2})
-            tasks.append(dict(name=f"n{n}", func="c15:ob_config", kwargs=dict(n=n, bs_list=bss, val_props=[0.1, 0.25, 0.3, 0.5, 0.7, 0.75, 0.9], epochs=3 if n <= 9 else 2), cost=n * n))
+        for n in range(2, 13):
+            # every batch size up to n + 2 for n <= 8; for larger n the sizes around the divisors / remainders (1, 2, 3, n // 2, n - 1, n, n + 2)
+            bss = list(range(1, n + 3)) if n <= 8 else sorted({1, 2, 3, n // 2, n - 1, n, n + 2})
+            tasks.append(dict(name=f"n{n}", func="c15:ob_config", kwargs=dict(n=n, bs_list=bss, val_props=[0.1, 0.25, 0.3, 0.5, 0.75, 0.9], epochs=3 if n <= 7 else 2), cost=n * n))
     return tasks
